@@ -133,8 +133,15 @@ fn run_kd(out: &mut Out, pal: &[RGBA], queries: &[RGBA], kind: &str) {
     }
     let (pal_v, queries_v) = (pal.to_vec(), queries.to_vec());
     let res = watched(move || {
-        let p = ColorPalette::new(pal_v)?;
-        Some(queries_v.iter().map(|q| p.find(*q)).collect::<Vec<_>>())
+        let p = ColorPalette::new(pal_v.clone())?;
+        // accessors of the palette against the raw input, and the k-d tree used directly
+        let mut acc_ok = p.size() == pal_v.len() && p.colors().len() == pal_v.len();
+        for (i, c) in pal_v.iter().enumerate() {
+            acc_ok = acc_ok && p.colors().get(i).map(|x| x.to_rgba()) == Some(c.to_rgba()) && p.get(i).to_rgba() == c.to_rgba();
+        }
+        let kd = surf_n_term::image::KDTree::new(&pal_v);
+        let direct: Vec<(usize, RGBA)> = queries_v.iter().take(12).map(|q| kd.find(*q)).collect();
+        Some((queries_v.iter().map(|q| p.find(*q)).collect::<Vec<_>>(), acc_ok, direct))
     });
     let Some(res) = res else {
         out.fail("nearest-colour lookup does not terminate", input, json!("an index per query"), no_answer());
@@ -154,7 +161,19 @@ fn run_kd(out: &mut Out, pal: &[RGBA], queries: &[RGBA], kind: &str) {
             }
             out.corr(&req, "none");
         }
-        Ok(Some(answers)) => {
+        Ok(Some((answers, acc_ok, direct))) => {
+            if !acc_ok {
+                out.fail("ColorPalette::size/get/colors do not return the colours the palette was made of", input.clone(),
+                         json!("size = n, get(i) = colors()[i] = i-th input colour"), json!("mismatch"));
+            }
+            for (qi, (idx, col)) in direct.iter().enumerate() {
+                let (m, _) = min_count(&prgb, qrgb[qi]);
+                if !(*idx < prgb.len() && prgb[*idx] == col.to_rgb() && dist(qrgb[qi], prgb[*idx]) == m) {
+                    out.fail("KDTree::find does not return a nearest palette entry",
+                             json!({"kind": "kd", "palette": rgba_hex(pal), "queries": rgba_hex(&queries[qi..qi + 1])}),
+                             json!({"min_squared_distance": m}), json!({"index": idx, "color": rgb_hex(&[col.to_rgb()])}));
+                }
+            }
             let mut shown = Vec::with_capacity(answers.len());
             for (qi, (idx, col)) in answers.iter().enumerate() {
                 let q = qrgb[qi];
@@ -551,9 +570,84 @@ impl QuantCase {
     }
 }
 
-/// the property's "alpha composited over the background": opaque pixels are themselves
+/// largest per-channel deviation seen between `blend_over` and the reference "over" operator below
+static BLEND_MAX_DEV: AtomicUsize = AtomicUsize::new(0);
+/// `blend_over` is float code with a fitted sRGB curve: it may be off the exact operator by a few units
+const BLEND_TOLERANCE: usize = 4;
+
+/// Porter–Duff "source over destination" on sRGB bytes, in linear light, premultiplied, in f64 — written
+/// here from the definition, used only to cross-check the helper the crate (and `composite`) relies on
+fn over_reference(bg: [u8; 4], c: [u8; 4]) -> Option<Rgb> {
+    fn s2l(v: u8) -> f64 {
+        let x = v as f64 / 255.0;
+        if x <= 0.04045 { x / 12.92 } else { ((x + 0.055) / 1.055).powf(2.4) }
+    }
+    fn l2s(x: f64) -> u8 {
+        let y = if x <= 0.0031308 { x * 12.92 } else { 1.055 * x.powf(1.0 / 2.4) - 0.055 };
+        (y * 255.0 + 0.5).clamp(0.0, 255.0) as u8
+    }
+    let (sa, da) = (c[3] as f64 / 255.0, bg[3] as f64 / 255.0);
+    let oa = sa + da * (1.0 - sa);
+    if oa <= 1e-9 {
+        return None;
+    }
+    let mut o = [0u8; 3];
+    for i in 0..3 {
+        o[i] = l2s((s2l(c[i]) * sa + s2l(bg[i]) * da * (1.0 - sa)) / oa);
+    }
+    Some(o)
+}
+
+/// the property's "alpha composited over the background": opaque pixels are themselves; translucent ones
+/// through rasterize's `blend_over` (trusted external float code, cross-checked against `over_reference`)
 fn composite(bg: RGBA, c: RGBA) -> Rgb {
-    if c.to_rgba()[3] < 255 { bg.blend_over(c).to_rgb() } else { c.to_rgb() }
+    let (bgb, cb) = (bg.to_rgba(), c.to_rgba());
+    if cb[3] < 255 {
+        let got = bg.blend_over(c).to_rgb();
+        if let Some(want) = over_reference(bgb, cb) {
+            let dev = (0..3).map(|i| (got[i] as i64 - want[i] as i64).unsigned_abs() as usize).max().unwrap_or(0);
+            BLEND_MAX_DEV.fetch_max(dev, SeqCst);
+        }
+        got
+    } else {
+        [cb[0], cb[1], cb[2]]
+    }
+}
+
+/// `ColorPalette::from_image` over other `Surface` implementors holding the same picture: an owned surface,
+/// a view into a larger one, a transposed owned surface, a reference.  Returns (implementor, palette).
+fn other_implementors(h: usize, w: usize, raw: &[RGBA], k: usize, bg: RGBA, junk: RGBA) -> Vec<(&'static str, Option<Vec<Rgb>>)> {
+    use surf_n_term::SurfaceOwned;
+    let pal = |p: Option<ColorPalette>| p.map(|p| p.colors().iter().map(|c| c.to_rgb()).collect::<Vec<_>>());
+    let mut res = Vec::new();
+    // NOTE `SurfaceOwned::from_vec` asserts `height * width < data.len()` (strictly): one spare cell
+    let spare = |mut v: Vec<RGBA>| {
+        v.push(junk);
+        v
+    };
+    let owned = SurfaceOwned::from_vec(Size::new(h, w), spare(raw.to_vec()));
+    res.push(("&SurfaceOwned", pal(ColorPalette::from_image(&owned, k, bg))));
+    // a view into a larger surface
+    let (hh, ww) = (h + 2, w + 3);
+    let mut big = vec![junk; hh * ww];
+    for r in 0..h {
+        for c in 0..w {
+            big[(r + 1) * ww + c + 2] = raw[r * w + c];
+        }
+    }
+    let bigs = SurfaceOwned::from_vec(Size::new(hh, ww), spare(big));
+    res.push(("SurfaceView", pal(ColorPalette::from_image(bigs.view(1..h + 1, 2..w + 2), k, bg))));
+    // stored column-major, seen through transpose()
+    let mut tr = vec![junk; h * w];
+    for r in 0..h {
+        for c in 0..w {
+            tr[c * h + r] = raw[r * w + c];
+        }
+    }
+    let trs = SurfaceOwned::from_vec(Size::new(w, h), spare(tr));
+    res.push(("transpose()", pal(ColorPalette::from_image(trs.transpose(), k, bg))));
+    res.push(("SurfaceOwned", pal(ColorPalette::from_image(owned, k, bg))));
+    res
 }
 
 /// Does `from_image` look at pixel `j` of an `h`×`w` image when `k` colours are requested?  Observed, not
@@ -577,8 +671,10 @@ fn run_quant(out: &mut Out, case: &QuantCase, kind: &str) {
     // the viewed pixels, row-major, computed from the backing buffer by the harness' own arithmetic
     // (independent of Surface::get / iter / view)
     let mut px: Vec<Rgb> = Vec::with_capacity(h * w);
+    let mut rawpx: Vec<RGBA> = Vec::with_capacity(h * w);
     for r in 0..h {
         for c in 0..w {
+            rawpx.push(case.raw(r0 + r, c0 + c));
             px.push(composite(bg_eff, case.raw(r0 + r, c0 + c)));
         }
     }
@@ -596,7 +692,10 @@ fn run_quant(out: &mut Out, case: &QuantCase, kind: &str) {
         }
         img.quantize(k, dither, bg).map(|(pal, q)| {
             let prgb: Vec<Rgb> = pal.colors().iter().map(|c| c.to_rgb()).collect();
-            let size_ok = pal.size() == prgb.len();
+            let mut size_ok = pal.size() == prgb.len();
+            for i in 0..prgb.len().min(pal.size()) {
+                size_ok = size_ok && pal.get(i).to_rgb() == prgb[i];
+            }
             // index image read from its backing data with our own arithmetic
             let (qs, qd) = (q.shape(), q.data());
             let mut idx = Vec::with_capacity(h * w);
@@ -605,7 +704,7 @@ fn run_quant(out: &mut Out, case: &QuantCase, kind: &str) {
                     idx.push(qd.get(qs.start + r * qs.row_stride + c * qs.col_stride).copied());
                 }
             }
-            (prgb, q.height(), q.width(), idx, size_ok)
+            (prgb, qs.height, qs.width, idx, size_ok && qd.len() >= h * w)
         })
     });
     let Some(res) = res else {
@@ -648,8 +747,12 @@ fn run_quant(out: &mut Out, case: &QuantCase, kind: &str) {
         Ok(Some((prgb, qh, qw, idx, size_ok))) => {
             let n = prgb.len();
             let bound = k.max(8);
-            if n < 1 || n > bound || !size_ok {
+            if n < 1 || n > bound {
                 out.fail("palette size outside 1..=max(requested,8)", input.clone(), json!(format!("1..={bound}")), json!(n));
+            }
+            if !size_ok {
+                out.fail("ColorPalette::size/get disagree with colors(), or the index image's buffer is too short", input.clone(),
+                         json!("size() = colors().len(), get(i) = colors()[i], data().len() >= h*w"), json!("mismatch"));
             }
             if qh != h || qw != w {
                 out.fail("index image has a different size", input.clone(), json!([h, w]), json!([qh, qw]));
@@ -750,6 +853,39 @@ fn run_quant(out: &mut Out, case: &QuantCase, kind: &str) {
             }
             if out.evaluations % 37 == 3 {
                 out.sample(json!({"h": h, "w": w, "k": k, "dither": dither, "distinct": distinct.len(), "palette": n}));
+            }
+            // the same picture through other Surface implementors (palette extraction only)
+            if case.before.is_empty() && !dither && h * w > 0 && k >= 1 && k < (1 << 40) {
+                let junk = RGBA::new(1, 254, 3, 255);
+                let raw2 = rawpx.clone();
+                let alt = watched(move || other_implementors(h, w, &raw2, k, bg_eff, junk));
+                if !matches!(alt, Some(Ok(_))) {
+                    out.fail("from_image panics or does not terminate over another Surface implementor", input.clone(), json!("a palette"), json!(if alt.is_none() { "no answer" } else { "panic" }));
+                }
+                if let Some(Ok(alts)) = alt {
+                    for (name, p) in alts {
+                        out.hist("quant:other-implementor");
+                        let preq = format!("c13 pal {} {} {} {}", h, w, k, rgb_hex(&px));
+                        match p {
+                            None => {
+                                out.fail("from_image returns None for a non-empty surface", json!({"implementor": name, "case": input.clone()}), json!("Some"), json!("None"));
+                                out.corr(&preq, "none");
+                            }
+                            Some(p) => {
+                                if p.is_empty() || p.len() > bound {
+                                    out.fail("palette size outside 1..=max(requested,8)", json!({"implementor": name, "case": input.clone()}), json!(format!("1..={bound}")), json!(p.len()));
+                                }
+                                if fits && ((h * w) as u128) < 200 * (k as u128) {
+                                    if let Some(c) = distinct.iter().find(|c| !p.contains(c)) {
+                                        out.fail("palette lacks a colour of an image whose colours fit (from_image over another Surface implementor)",
+                                                 json!({"implementor": name, "case": input.clone()}), json!({"missing": rgb_hex(&[*c])}), json!(rgb_hex(&p)));
+                                    }
+                                }
+                                out.corr(&preq, &format!("pal={}", rgb_hex(&p)));
+                            }
+                        }
+                    }
+                }
             }
         }
     }
@@ -1016,6 +1152,7 @@ fn main() {
         }
         // empty image: quantize answers None (outside the property, correspondence only)
         run_quant(&mut out, &QuantCase { height: 0, width: 3, data: vec![], layout: None, crop: None, k: 4, dither: false, bg: None, before: vec![] }, "corner");
+        run_quant(&mut out, &QuantCase { height: 3, width: 0, data: vec![], layout: None, crop: None, k: 4, dither: true, bg: None, before: vec![] }, "corner");
     }
 
     // ---- storage layouts: the same 3×4 / 2×5 picture dense, transposed, padded, strided, and cropped on top
@@ -1149,6 +1286,12 @@ fn main() {
     for i in 0..n_small + n_big {
         let (case, kind) = gen_quant(&mut rng, i >= n_small);
         run_quant(&mut out, &case, kind);
+    }
+    let dev = BLEND_MAX_DEV.load(SeqCst);
+    out.extra("blend_over_max_deviation_from_reference", json!(dev));
+    if dev > BLEND_TOLERANCE {
+        out.fail("alpha compositing helper (blend_over) deviates from the source-over operator", json!({"kind": "blend"}),
+                 json!(format!("at most {BLEND_TOLERANCE} units per channel")), json!(dev));
     }
     out.extra("watchdog", json!({"slow_cases_rerun_ok": SLOW_RERUN_OK.load(SeqCst), "hung": HUNG.load(SeqCst),
                                  "first_limit_s": CASE_TIMEOUT.as_secs(), "long_limit_s": LONG_SECS.load(SeqCst)}));
